@@ -213,7 +213,9 @@ fn chunker_next_two_documents_with_gap() {
 	let mut c = chunker_over(data);
 	let d1 = c.next();
 	assert!(is_doc(&d1, &data, 0, 2, true), "first document: bytes [0,2), a collection");
-	assert!(unsafe { EV_POS } == 4, "a document is emitted when the NEXT document starts (one-document deferral), not later");
+	// (the code defers emission until the next DOCUMENT-START; emitting earlier would not violate C03 / C05, so only
+	// "not later" is demanded)
+	assert!(unsafe { EV_POS } <= 4, "a document is emitted at the latest when the NEXT document starts");
 	std::mem::forget(d1);
 	std::mem::forget(c);
 }
